@@ -377,17 +377,30 @@ func reifyValue(
 	t reflect.Type,
 	val value,
 ) (reflect.Value, Error) {
-	if t.Kind() == reflect.Interface && t.NumMethod() == 0 {
+	baseType := chaseTypePointers(t)
+	if baseType.Kind() == reflect.Interface && baseType.NumMethod() == 0 {
 		reified, err := val.reify(opts.opts)
 		if err != nil {
 			ctx := val.Context()
 			return reflect.Value{}, raisePathErr(err, val.meta(), "", ctx.path("."))
 		}
-		return reflect.ValueOf(reified), nil
+		v := reflect.ValueOf(reified)
+		if t == baseType {
+			return v, nil
+		}
+
+		// pointer to an empty interface: the value is stored in a new interface
+		box := reflect.New(baseType).Elem()
+		if v.IsValid() {
+			box.Set(v)
+		}
+		return pointerize(t, baseType, box), nil
 	}
 
-	baseType := chaseTypePointers(t)
-	if tConfig.ConvertibleTo(baseType) {
+	// the configuration itself is handed out if the pointer conversion made
+	// below is possible (Config is convertible to any empty interface, a
+	// pointer to it is not)
+	if tConfigPtr.ConvertibleTo(reflect.PtrTo(baseType)) {
 		cfg, err := val.toConfig(opts.opts)
 		if err != nil {
 			return reflect.Value{}, raiseExpectedObject(opts.opts, val)
@@ -460,7 +473,7 @@ func reifyMergeValue(
 
 	baseType := chaseTypePointers(old.Type())
 
-	if tConfig.ConvertibleTo(baseType) {
+	if tConfigPtr.ConvertibleTo(reflect.PtrTo(baseType)) {
 		sub, err := val.toConfig(opts.opts)
 		if err != nil {
 			return reflect.Value{}, raiseExpectedObject(opts.opts, val)
